@@ -768,6 +768,7 @@ func main() {
 		e.stressPhase(rng)
 		e.servicePhase(rng)
 		e.servicePopulatedPhase(rng)
+		e.serviceOddIDsPhase()
 		e.serviceGatedPhase()
 		r.Count("backends", 1)
 	}
